@@ -373,6 +373,26 @@ impl DbValue {
     }
 }
 
+/// Verification hooks: the crate-private `store_db_value` / `load_db_value` on a raw
+/// 16-byte `DbValueIndex`, over the public `VStorage` wrapper.
+#[cfg(agdb_verif)]
+impl DbValue {
+    pub fn verif_store_db_value<D: StorageData>(
+        &self,
+        storage: &mut crate::verif::VStorage<D>,
+    ) -> Result<[u8; 16], DbError> {
+        Ok(self.store_db_value(storage.inner_mut())?.data())
+    }
+
+    pub fn verif_load_db_value<D: StorageData>(
+        index: [u8; 16],
+        storage: &crate::verif::VStorage<D>,
+    ) -> Result<DbValue, DbError> {
+        use crate::utilities::serialize::Serialize;
+        Self::load_db_value(DbValueIndex::deserialize(&index)?, storage.inner())
+    }
+}
+
 impl Default for DbValue {
     fn default() -> Self {
         Self::I64(0)
